@@ -354,8 +354,7 @@ Section RunOk.
       - eapply below_names; eauto.
       - apply (below_lookup _ Hwfn) in Hx. apply Hx. }
     pose proof (include_files_spec pkg_of cfg a (snd inc) (Dir s ch) L Ha Hn HL) as HS.
-    destruct (include_files pkg_of cfg a (snd inc) (map (fun rx => PAbs (a ++ fst rx)) L)) as [m|];
-      [|discriminate].
+    destruct (include_files pkg_of cfg a (snd inc) _) as [m|]; [|discriminate].
     assert (l = AInc a :: m) by congruence. subst l m. constructor.
     - simpl. split; [apply to_abs_segs; assumption|apply norm_ok_id; exact Ha].
     - apply mapping_items_ok. intros r x Hx. apply filter_In in Hx. destruct Hx as [Hx _]. split.
@@ -374,7 +373,7 @@ Section RunOk.
     - assert (l = []) by congruence. subst. constructor.
     - destruct (include_args pkg_of cfg i) as [x|] eqn:Ex; try discriminate.
       destruct (includes_args pkg_of cfg incs) as [y|] eqn:Ey; try discriminate.
-      assert (l = x ++ y) by congruence. subst l. apply Forall_app. split.
+      assert (l = (x ++ y)%list) by congruence. subst l. apply Forall_app. split.
       + eapply include_args_ok; eauto; [apply Hsub|apply Hsegs]; left; reflexivity.
       + apply IH; auto; intros j Hj; [apply Hsub|apply Hsegs]; right; exact Hj.
   Qed.
@@ -410,7 +409,7 @@ Section RunOk.
     pose proof Hrun as Hrun'. unfold run in Hrun'.
     destruct (find_protos cfg (c_input cfg) (c_recurse cfg)) as [paths|] eqn:Ef; [|discriminate].
     destruct (includes_args pkg_of cfg (include_paths cfg)) as [incs|] eqn:Ei; [|discriminate].
-    assert (Hargv : argv = plugin_flags cfg ++ incs ++ map AFile paths) by congruence.
+    assert (Hargv : argv = (plugin_flags cfg ++ incs ++ map AFile paths)%list) by congruence.
     clear Hrun'.
     assert (Hfiles : files_of argv = paths).
     { rewrite Hargv, !files_of_app, files_of_files, (includes_args_no_files _ _ _ _ Ei).
